@@ -17,6 +17,9 @@ import LemoProofs.Lemmas.RlpSplit
 import LemoModel.RlpSchema
 import LemoProofs.Lemmas.RlpSchemaLemmas
 import LemoModel.Base26
+import LemoModel.RlpCustom
+import LemoModel.RlpChk
+import LemoProofs.Lemmas.RlpCustomLemmas
 import LemoProofs.Lemmas.Base26Lemmas
 namespace LemoProofs.C14
 open LemoModel.Rlp LemoModel.RlpSchema LemoProofs.RlpBytes LemoProofs.RlpSplit LemoProofs.RlpSchemaLemmas
@@ -259,11 +262,11 @@ theorem no_trailing {b : List UInt8} {x : Item} (h : decode b = .ok x) (hb : b.l
     | cons a t => rfl
   simp [this]
 
-/-! ### totality: a value or an error, never anything else; nesting depth is bounded by the input -/
+/-! ### nesting depth is bounded by the input -/
 
-/-- **decode_total**: for every byte string the decoder returns a value or one of the named errors.
-    (`decode` is a total Lean function — its termination proof is `split_length` in the model —
-    and its result type `Except Err Item` has no panic constructor.) -/
+/-- `decode` is a total function into `Except Err Item` (true of ANY Lean function of that type: this is NOT the
+    "never a panic" statement — that one is `split_never_panics` / `rawSplit_never_panics` below, about the
+    readers rewritten with partial primitives).  Kept for reference, not a registered theorem. -/
 theorem decode_total (b : List UInt8) : (∃ x, decode b = .ok x) ∨ (∃ e, decode b = .error e) := by
   cases h : decode b with
   | ok x => exact Or.inl ⟨x, rfl⟩
@@ -658,6 +661,447 @@ theorem root_reencode_refuted_explicit (E : List UInt8) (hE : E.length = 32) :
   rw [← h] at hE
   simp at hE
 
+/-! ### never a panic: the partial primitives of the generic decoder are always used inside their domain -/
+
+section NoPanic
+open LemoModel.RlpChk
+
+theorem readSizeChk_eq (top : Bool) (n : Nat) (inp : List UInt8) (h1 : 1 ≤ n) (h8 : n ≤ 8) :
+    readSizeChk top n inp = Out.ofExcept (readSize top n inp) := by
+  unfold readSizeChk readSize
+  rw [if_neg (by omega)]
+  by_cases hl : inp.length < n
+  · rw [if_pos hl, if_pos hl]; rfl
+  · rw [if_neg hl, if_neg hl]
+    have h1 : takeChk n inp = some (inp.take n) := by unfold takeChk; rw [if_pos (by omega)]
+    have h2 : dropChk n inp = some (inp.drop n) := by unfold dropChk; rw [if_pos (by omega)]
+    rw [h1, h2]
+    simp only
+    split
+    · rfl
+    · split <;> rfl
+
+theorem readHeadChk_eq (top : Bool) (inp : List UInt8) : readHeadChk top inp = Out.ofExcept (readHead top inp) := by
+  unfold readHeadChk readHead
+  cases inp with
+  | nil => rfl
+  | cons b rest =>
+    have hb := UInt8.toNat_lt b
+    simp only
+    split
+    · rfl
+    · split
+      · split <;> rfl
+      · split
+        · rw [readSizeChk_eq top _ rest (by omega) (by omega)]
+          cases readSize top (b.toNat - 183) rest with
+          | error e => rfl
+          | ok v =>
+            obtain ⟨n, r⟩ := v
+            simp only [Out.ofExcept]
+            split <;> rfl
+        · split
+          · split <;> rfl
+          · rw [readSizeChk_eq top _ rest (by omega) (by omega)]
+            cases readSize top (b.toNat - 247) rest with
+            | error e => rfl
+            | ok v =>
+              obtain ⟨n, r⟩ := v
+              simp only [Out.ofExcept]
+              split <;> rfl
+
+/-- the checked reader computes exactly what the unchecked one does: no `make`, `uintbuf[8-size:]` or slice
+    expression of `Stream.Kind` / `readUint` / `Bytes` / `List` is ever evaluated outside its domain -/
+theorem splitChk_eq (top : Bool) (inp : List UInt8) : splitChk top inp = Out.ofExcept (split top inp) := by
+  unfold splitChk split
+  rw [readHeadChk_eq]
+  cases h : readHead top inp with
+  | error e => rfl
+  | ok v =>
+    obtain ⟨hd, rest⟩ := v
+    have hc := readHead_canon h
+    cases hd with
+    | byte b => rfl
+    | str n =>
+      simp only at hc
+      have h1 : takeChk n rest = some (rest.take n) := by unfold takeChk; rw [if_pos hc.2]
+      have h2 : dropChk n rest = some (rest.drop n) := by unfold dropChk; rw [if_pos hc.2]
+      simp only [Out.ofExcept, h1, h2]
+      split <;> rfl
+    | lst n =>
+      simp only at hc
+      have h1 : takeChk n rest = some (rest.take n) := by unfold takeChk; rw [if_pos hc.2]
+      have h2 : dropChk n rest = some (rest.drop n) := by unfold dropChk; rw [if_pos hc.2]
+      simp only [Out.ofExcept, h1, h2]
+
+/-- **split_never_panics**: for every byte string, in both contexts, the header/payload reader of the generic
+    decoder ends in a value or an error; the panic outcome of the partial primitives is unreachable. -/
+theorem split_never_panics (top : Bool) (inp : List UInt8) : splitChk top inp ≠ .panic := by
+  rw [splitChk_eq]
+  cases split top inp <;> simp [Out.ofExcept]
+
+theorem rawReadSize_len {b : List UInt8} {slen v : Nat} (h : rawReadSize b slen = .ok v) : slen ≤ b.length := by
+  unfold rawReadSize at h
+  split at h
+  · cases h
+  · omega
+
+theorem rawReadKind_bounds {b : List UInt8} {k ts cs : Nat} (h : rawReadKind b = .ok (k, ts, cs)) :
+    ts ≤ b.length ∧ cs ≤ b.length - ts := by
+  unfold rawReadKind at h
+  cases b with
+  | nil => cases h
+  | cons x rest =>
+    simp only at h
+    have fin : ∀ k' ts' cs', (if cs' > (x :: rest).length - ts' then (Except.error Err.valueTooLarge : Except Err (Nat × Nat × Nat))
+        else Except.ok (k', ts', cs')) = Except.ok (k, ts, cs) → ts' = ts ∧ cs' = cs ∧ cs' ≤ (x :: rest).length - ts' := by
+      intro k' ts' cs' hh
+      split at hh
+      · cases hh
+      · cases hh; exact ⟨rfl, rfl, by omega⟩
+    split at h
+    · obtain ⟨e1, e2, e3⟩ := fin _ _ _ h
+      subst e1 e2; simp at e3 ⊢ <;> omega
+    · split at h
+      · split at h
+        · cases h
+        · obtain ⟨e1, e2, e3⟩ := fin _ _ _ h
+          subst e1 e2; simp at e3 ⊢ <;> omega
+      · split at h
+        · split at h
+          · cases h
+          · rename_i v hs
+            obtain ⟨e1, e2, e3⟩ := fin _ _ _ h
+            have := rawReadSize_len hs
+            subst e1 e2; simp at e3 ⊢ <;> omega
+        · split at h
+          · obtain ⟨e1, e2, e3⟩ := fin _ _ _ h
+            subst e1 e2; simp at e3 ⊢ <;> omega
+          · split at h
+            · cases h
+            · rename_i v hs
+              obtain ⟨e1, e2, e3⟩ := fin _ _ _ h
+              have := rawReadSize_len hs
+              subst e1 e2; simp at e3 ⊢ <;> omega
+
+/-- **rawSplit_never_panics**: the slice expressions of `rlp.Split` (raw.go:28) stay inside the buffer -/
+theorem rawSplit_never_panics (b : List UInt8) : rawSplitChk b ≠ .panic := by
+  unfold rawSplitChk
+  cases h : rawReadKind b with
+  | error e => simp
+  | ok v =>
+    obtain ⟨k, ts, cs⟩ := v
+    have hb := rawReadKind_bounds h
+    have h1 : dropChk ts b = some (b.drop ts) := by unfold dropChk; rw [if_pos hb.1]
+    have h2 : takeChk cs (b.drop ts) = some ((b.drop ts).take cs) := by
+      unfold takeChk; rw [if_pos (by rw [List.length_drop]; exact hb.2)]
+    have h3 : dropChk (ts + cs) b = some (b.drop (ts + cs)) := by unfold dropChk; rw [if_pos (by omega)]
+    simp [h1, h2, h3]
+
+end NoPanic
+
+/-! ### hand-written codecs: Profile, change-log payloads, ChangeLog, lists of change logs, Header
+
+  `ChangeLog.Hash()` is Keccak of the log's own RLP, so for change logs "re-encoding the decoded value yields
+  the original bytes" is exactly "the hash of what was received is the hash of what is stored".  The clause is
+  FALSE for the code as it is; the model (LemoModel/RlpCustom.lean, tied by the `typed …` ops) carries every
+  laxness, the theorems below give the exact guards, and the refutations are the open findings. -/
+
+section Custom
+open LemoModel.RlpCustom LemoProofs.RlpCustomLemmas
+
+/-- two list encodings are equal only if the payloads are (used to compare encodings of ≥ 56 bytes without
+    evaluating the well-founded `toBE`) -/
+theorem encode_list_inj {xs ys : List Item} (hx : (encodeList xs).length < 2 ^ 64) (hy : (encodeList ys).length < 2 ^ 64)
+    (h : encode (.list xs) = encode (.list ys)) : encodeList xs = encodeList ys := by
+  have h1 := split_encLst true (encodeList xs) [] hx
+  have h2 := split_encLst true (encodeList ys) [] hy
+  rw [encode, encode] at h
+  rw [List.append_nil] at h1 h2
+  rw [h, h2] at h1
+  injection h1 with h1
+  injection h1 with _ h1
+  injection h1 with h1 _
+  exact h1.symm
+
+/-- a key-sorted Profile decodes from its own encoding to itself -/
+theorem profile_roundtrip (ps : List KV) (h : Sorted ps) : decodeProfile (encodeProfile ps) = some ps :=
+  decodeProfile_encodeProfile ps h
+
+/- Full statement: decodeProfile it = some ps → encodeProfile ps = it.  FALSE (profile_refuted_*).  Guard: the
+   wire item is the list of strictly key-sorted pairs: -/
+theorem profile_reencode_partial {it : Item} {ps : List KV} (h : decodeProfile it = some ps)
+    (hc : ∃ qs, Sorted qs ∧ it = encodeProfile qs) : encodeProfile ps = it := by
+  obtain ⟨qs, hq, hit⟩ := hc
+  subst hit
+  rw [decodeProfile_encodeProfile qs hq] at h
+  cases h; rfl
+
+/-- finding `profile`: a duplicate key is accepted, the last value wins (0xCA C4 6B 82 76 31 C4 6B 82 76 32 → C5 C4 6B 82 76 32) -/
+theorem profile_refuted_duplicate :
+    decodeProfile (.list [pairItem ([0x6b], [0x76, 0x31]), pairItem ([0x6b], [0x76, 0x32])]) = some [([0x6b], [0x76, 0x32])] ∧
+    encode (encodeProfile [([0x6b], [0x76, 0x32])]) ≠
+      encode (.list [pairItem ([0x6b], [0x76, 0x31]), pairItem ([0x6b], [0x76, 0x32])]) := by
+  refine ⟨by decide, by decide⟩
+
+/-- finding `profile`: unsorted pairs are accepted and come back sorted -/
+theorem profile_refuted_unsorted :
+    decodeProfile (.list [pairItem ([0x62], [1]), pairItem ([0x61], [1])]) = some [([0x61], [1]), ([0x62], [1])] ∧
+    encode (encodeProfile [([0x61], [1]), ([0x62], [1])]) ≠ encode (.list [pairItem ([0x62], [1]), pairItem ([0x61], [1])]) := by
+  refine ⟨by decide, by decide⟩
+
+/-- finding `profile`: the empty string 0x80 and a single byte like 0x12 are accepted as the empty profile (written 0xC0) -/
+theorem profile_refuted_empty_forms :
+    decodeProfile (.bytes []) = some [] ∧ decodeProfile (.bytes [0x12]) = some [] ∧
+    encode (encodeProfile []) = [0xC0] ∧ encode (.bytes []) = [0x80] ∧ encode (.bytes [0x12]) = [0x12] := by
+  refine ⟨by decide, by decide, by decide, by decide, by decide⟩
+
+/-- finding `profile` (missing field): an Asset list without its Profile element is accepted
+    (`Profile.DecodeRLP` ignores the EOL of `Stream.Kind`) and re-encodes with the empty profile appended -/
+theorem asset_refuted_missing_profile :
+    ∃ v it', decodeAsset (.list [.bytes [1], .bytes [], .bytes (List.replicate 32 0), .bytes [5], .bytes [], .bytes [],
+        .bytes (List.replicate 20 0)]) = some v ∧ encodeAsset v = some it' ∧
+      encode it' ≠ encode (.list [.bytes [1], .bytes [], .bytes (List.replicate 32 0), .bytes [5], .bytes [], .bytes [],
+        .bytes (List.replicate 20 0)]) := by
+  refine ⟨_, _, rfl, rfl, ?_⟩
+  simp (disch := decide) only [toBE_fromBE]
+  intro h
+  exact absurd (encode_list_inj (by decide) (by decide) h) (by decide)
+
+/-- **payload_roundtrip**: every payload value written by the encoder is read back by the registered decoder,
+    under `RtOk` (a non-nil pointer payload must not encode to a size-zero item; profiles are key-sorted). -/
+theorem payload_roundtrip (p : PDec) (v : CVal) (it : Item) (h : runEnc p v = some it) (hok : RtOk p v it) :
+    runDec p it = some v := runDec_runEnc p v it h hok
+
+/-- **payload_reencode_partial**: on the `Strict` wire forms the payload decoders are injective. -/
+theorem payload_reencode_partial (p : PDec) (v : CVal) (it : Item) (h : runDec p it = some v) (hs : Strict p it) :
+    runEnc p v = some it := runEnc_runDec p v it h hs
+
+theorem decU32_enc {n : Nat} {a : Item} (h : encodeS (.uint 32) (.nat n) = some a) : decU32 a = some n := by
+  unfold decU32; rw [decodeS_encodeS _ _ _ h]
+
+theorem decAddr_enc {b : List UInt8} {a : Item} (h : encodeS (.fixed 20) (.bytes b) = some a) : decAddr a = some b := by
+  unfold decAddr; rw [decodeS_encodeS _ _ _ h]
+
+theorem enc_decU32 {n : Nat} {a : Item} (h : decU32 a = some n) : encodeS (.uint 32) (.nat n) = some a := by
+  unfold decU32 at h
+  split at h
+  · rename_i m hm
+    cases h
+    exact encodeS_decodeS a (.uint 32) _ rfl hm
+  · cases h
+
+theorem enc_decAddr {b : List UInt8} {a : Item} (h : decAddr a = some b) : encodeS (.fixed 20) (.bytes b) = some a := by
+  unfold decAddr at h
+  split at h
+  · rename_i m hm
+    cases h
+    exact encodeS_decodeS a (.fixed 20) _ rfl hm
+  · cases h
+
+/-- **changeLog_roundtrip**: a change log of any of the 19 registered types decodes from its own encoding to
+    itself when both payloads satisfy `RtOk`. -/
+theorem changeLog_roundtrip (l : CLog) (it : Item) (h : encodeChangeLog l = some it)
+    (hg : ∀ p q d e, logDecoders l.logType = some (p, q) → runEnc p l.newVal = some d → runEnc q l.extra = some e →
+      RtOk p l.newVal d ∧ RtOk q l.extra e) : decodeChangeLog it = some l := by
+  unfold encodeChangeLog at h
+  split at h
+  · rename_i p q hpq
+    split at h
+    · rename_i a b c d e ha hb hc hd he
+      cases h
+      have g := hg p q d e hpq hd he
+      simp only [decodeChangeLog, decU32_enc ha, decAddr_enc hb, decU32_enc hc, hpq,
+        runDec_runEnc p _ d hd g.1, runDec_runEnc q _ e he g.2]
+    · cases h
+  · cases h
+
+/-- the wire forms of a change log on which `ChangeLog.DecodeRLP` is injective -/
+def StrictLog (it : Item) : Prop :=
+  ∀ a b c d e lt p q, it = .list [a, b, c, d, e] → decU32 a = some lt → logDecoders lt = some (p, q) →
+    Strict p d ∧ Strict q e
+
+/- Full statement: decodeChangeLog it = some l → encodeChangeLog l = some it (so that l.Hash() = Keccak(wire)).
+   FALSE for the code as it is (changelog_payload_refuted_*).  Exact guard: `StrictLog`. -/
+theorem changeLog_reencode_partial (l : CLog) (it : Item) (h : decodeChangeLog it = some l) (hs : StrictLog it) :
+    encodeChangeLog l = some it := by
+  unfold decodeChangeLog at h
+  split at h
+  · rename_i a b c d e
+    split at h
+    · rename_i lt addr ver ha hb hc
+      split at h
+      · rename_i p q hpq
+        split at h
+        · rename_i nv ex hd he
+          cases h
+          have g := hs a b c d e lt p q rfl ha hpq
+          simp only [encodeChangeLog, hpq, enc_decU32 ha, enc_decAddr hb, enc_decU32 hc,
+            runEnc_runDec p nv d hd g.1, runEnc_runDec q ex e he g.2]
+        · cases h
+      · cases h
+    · cases h
+  · cases h
+
+/-- a complete change log: type, 20-byte address, version 1, NewVal, Extra -/
+def logItem (lt : UInt8) (nv ex : Item) : Item :=
+  .list [.bytes [lt], .bytes (List.replicate 20 7), .bytes [1], nv, ex]
+
+/-- the shape of the payload refutations: accepted, and the decoded log encodes to different bytes
+    (hence `Hash()` of the decoded log ≠ Keccak of the received bytes) -/
+def LogRefuted (w : Item) : Prop :=
+  ∃ l it', decodeChangeLog w = some l ∧ encodeChangeLog l = some it' ∧ encode it' ≠ encode w
+
+/-- closes `encode it' ≠ encode w` for two concrete list items -/
+macro "logNe" : tactic => `(tactic|
+  (simp (disch := decide) only [toBE_fromBE, logItem]
+   intro h
+   exact absurd (encode_list_inj (by decide) (by decide) h) (by decide)))
+
+/-- finding `changelog-payload/decodeHash`: StorageRootLog whose NewVal is the one-byte string 0x01 -/
+theorem changelog_payload_refuted_decodeHash : LogRefuted (logItem 3 (.bytes [1]) (.list [])) := by
+  refine ⟨_, _, rfl, rfl, ?_⟩
+  logNe
+
+/-- finding `changelog-payload/decodeAddress`: VoteForLog with a 21-byte address -/
+theorem changelog_payload_refuted_decodeAddress : LogRefuted (logItem 17 (.bytes (List.replicate 21 9)) (.list [])) := by
+  refine ⟨_, _, rfl, rfl, ?_⟩
+  logNe
+
+/-- finding `changelog-payload/decodeEmptyInterface`: BalanceLog whose Extra is 0x80 (and 0x05) instead of 0xC0 -/
+theorem changelog_payload_refuted_decodeEmptyInterface :
+    LogRefuted (logItem 1 (.bytes [9]) (.bytes [])) ∧ LogRefuted (logItem 1 (.bytes [9]) (.bytes [5])) := by
+  refine ⟨⟨_, _, rfl, rfl, ?_⟩, ⟨_, _, rfl, rfl, ?_⟩⟩ <;> logNe
+
+/-- finding `changelog-payload/decodeSigners`: SignerLog whose NewVal is 0x80 -/
+theorem changelog_payload_refuted_decodeSigners : LogRefuted (logItem 19 (.bytes []) (.list [])) := by
+  refine ⟨_, _, rfl, rfl, ?_⟩
+  logNe
+
+/-- finding `changelog-payload/decodeAsset`: AssetCodeLog whose NewVal is 0x80 -/
+theorem changelog_payload_refuted_decodeAsset :
+    LogRefuted (logItem 4 (.bytes []) (.bytes (List.replicate 32 1))) := by
+  refine ⟨_, _, rfl, rfl, ?_⟩
+  logNe
+
+/-- finding `changelog-payload/decodeEquity`: EquityLog whose NewVal is the single byte 0x05 -/
+theorem changelog_payload_refuted_decodeEquity :
+    LogRefuted (logItem 10 (.bytes [5]) (.bytes (List.replicate 32 1))) := by
+  refine ⟨_, _, rfl, rfl, ?_⟩
+  logNe
+
+/-- finding `changelog-payload/decodeProfileChangeLogExtra`: AssetCodeStateLog whose Extra is 0x80 -/
+theorem changelog_payload_refuted_decodeProfileChangeLogExtra :
+    LogRefuted (logItem 5 (.bytes [0x61]) (.bytes [])) := by
+  refine ⟨_, _, rfl, rfl, ?_⟩
+  logNe
+
+/-- finding `profile` inside a log: CandidateLog whose profile has a duplicate key -/
+theorem changelog_refuted_profile_in_candidate :
+    LogRefuted (logItem 12 (.list [pairItem ([0x6b], [1]), pairItem ([0x6b], [2])]) (.list [])) := by
+  refine ⟨_, _, rfl, rfl, ?_⟩
+  logNe
+
+/-- the value-level asymmetry behind `changelog-redo-after-decode/SignerLog`: a typed empty signer list is
+    written as 0xC0 and read back as the untyped nil -/
+theorem signers_empty_reads_back_nil :
+    runEnc (.nilOr signersSchema) (.v (.list [])) = some (.list []) ∧
+    runDec (.nilOr signersSchema) (.list []) = some (.v .nil) := ⟨rfl, rfl⟩
+
+/-- finding `changelog-eol`: 0xC1 0xC0 (a list holding one EMPTY change log) is accepted as the empty list of
+    change logs, which is written 0xC0; a log cut after its NewVal does the same -/
+theorem changelog_eol_refuted :
+    decodeLogSlice (.list [.list []]) = some [] ∧ encodeLogSlice [] = some (.list []) ∧
+    encode (.list [.list []]) = [0xC1, 0xC0] ∧ encode (.list []) = [0xC0] ∧
+    decodeLogSlice (.list [.list [.bytes [1], .bytes (List.replicate 20 7), .bytes [1], .bytes [9]]]) = some [] := by
+  refine ⟨rfl, rfl, by decide, by decide, rfl⟩
+
+/-- without a leaking element and on strict logs, a list of change logs re-encodes identically -/
+theorem logSlice_reencode_partial : ∀ (xs : List Item) (ls : List CLog), decodeLogElems xs = some ls →
+    (∀ x ∈ xs, leaksEOL x = false ∧ StrictLog x) → encodeLogElems ls = some xs
+  | [], ls, h, _ => by simp [decodeLogElems] at h; subst h; rfl
+  | x :: rest, ls, h, hg => by
+    have hx := hg x (List.mem_cons_self ..)
+    simp only [decodeLogElems, hx.1, Bool.false_eq_true, if_false] at h
+    split at h
+    · rename_i l ls' h1 h2
+      cases h
+      have ih := logSlice_reencode_partial rest ls' h2 (fun y hy => hg y (List.mem_cons_of_mem _ hy))
+      simp only [encodeLogElems, changeLog_reencode_partial l x h1 hx.2, ih]
+    · cases h
+
+/-! #### Header = rlpHeader + root elision, composed -/
+
+def rootLen32 : Val → Prop
+  | .bytes r => r.length = 32
+  | _ => True
+
+/-- **header_roundtrip**: a Header (both roots 32 bytes, `E` = EmptyTrieHash included) decodes from its own
+    encoding to itself. -/
+theorem header_roundtrip (E : List UInt8) (vs : List Val) (it : Item) (h : encodeHeader E (.list vs) = some it)
+    (hr : okAt rootLen32 0 vs) : decodeHeader E it = some (.list vs) := by
+  unfold encodeHeader at h
+  unfold decodeHeader
+  rw [decodeS_encodeS _ _ _ h]
+  simp only
+  rw [mapAt_mapAt, mapAt_id]
+  refine okAt_mono ?_ 0 vs hr
+  intro x hx
+  cases x with
+  | bytes r => simp only [Function.comp, onBytes]; rw [root_roundtrip E r hx]
+  | nat _ => rfl
+  | list _ => rfl
+  | nil => rfl
+
+def wireRootOk (E : List UInt8) : Val → Prop
+  | .bytes b => b = [] ∨ (b.length = 32 ∧ b ≠ E)
+  | _ => True
+
+/- Full statement: decodeHeader E it = some v → encodeHeader E v = some it.  FALSE (header_reencode_refuted).
+   Exact guard: both wire roots are empty or 32 bytes different from EmptyTrieHash. -/
+theorem header_reencode_partial (E : List UInt8) (it : Item) (v : Val) (h : decodeHeader E it = some v)
+    (hw : ∀ ws, decodeS headerSchema it = some (.list ws) → okAt (wireRootOk E) 0 ws) :
+    encodeHeader E v = some it := by
+  unfold decodeHeader at h
+  split at h
+  · rename_i ws hd
+    cases h
+    show encodeS headerSchema (.list (mapAt (onBytes (encRoot E)) 0 (mapAt (onBytes (decRoot E)) 0 ws))) = some it
+    rw [mapAt_mapAt, mapAt_id]
+    · exact encodeS_decodeS it headerSchema _ (by decide) hd
+    · refine okAt_mono ?_ 0 ws (hw ws hd)
+      intro x hx
+      cases x with
+      | bytes r => simp only [Function.comp, onBytes]; rw [root_reencode_partial E r hx]
+      | nat _ => rfl
+      | list _ => rfl
+      | nil => rfl
+  · cases h
+
+/-- a complete wire header whose TxRoot is the single byte 0x64 (the open finding `header-root`) -/
+def headerWitness : Item :=
+  .list [.bytes (List.replicate 32 0), .bytes (List.replicate 20 0), .bytes (List.replicate 32 0), .bytes [0x64], .bytes [],
+         .bytes [], .bytes [], .bytes [], .bytes [], .bytes [], .bytes [], .bytes []]
+
+set_option maxRecDepth 8192 in
+theorem header_reencode_refuted :
+    ∃ v it', decodeHeader emptyTrieHash headerWitness = some v ∧ encodeHeader emptyTrieHash v = some it' ∧
+      encode it' ≠ encode headerWitness := by
+  refine ⟨_, _, rfl, rfl, ?_⟩
+  simp (disch := decide) only [toBE_fromBE, headerWitness]
+  intro h
+  exact absurd (encode_list_inj (by decide) (by decide) h) (by decide)
+
+/-- what `Header.Hash()` hashes is a function of the decoded value only (it reads the fields, never the wire
+    bytes or a cache filled by the decoder), so the round trip preserves it; Keccak itself is not modelled. -/
+theorem header_hash_preimage_stable (E : List UInt8) (vs : List Val) (it : Item) (v' : Val)
+    (h : encodeHeader E (.list vs) = some it) (hr : okAt rootLen32 0 vs) (hd : decodeHeader E it = some v') :
+    headerHashPreimage v' = headerHashPreimage (.list vs) := by
+  rw [header_roundtrip E vs it h hr] at hd
+  cases hd; rfl
+
+end Custom
+
 /-! ### address text form: "Lemo" + base26(address ++ xor check byte) -/
 
 section AddressText
@@ -743,7 +1187,100 @@ example : decodeUintTop 64 [0x00] = .error .canonInt := by rfl              -- z
 example : decodeUintTop 8 [0x82, 0x01, 0x00] = .error .uintOverflow := by rfl
 example : decodeBigTop [0x82, 0x00, 0x05] = .error .canonInt := by rfl
 
+/-! ### a computable size bound (so that `length < 2^64` can be discharged by `decide` on concrete items) -/
+
+mutual
+  def weight : Item → Nat
+    | .bytes b => b.length + 9
+    | .list xs => weightList xs + 9
+  def weightList : List Item → Nat
+    | [] => 0
+    | x :: xs => weight x + weightList xs
+end
+
+theorem encLen_length_le (off n : Nat) (h : n < 2 ^ 64) : (encLen off n).length ≤ 9 := by
+  unfold encLen
+  split
+  · simp
+  · have := toBE_len_8 h
+    simp; omega
+
+mutual
+  theorem encode_length_le_weight : ∀ x : Item, weight x < 2 ^ 64 → (encode x).length ≤ weight x
+    | .bytes b, h => by
+      rw [weight] at h ⊢
+      rw [encode]
+      unfold encodeBytes
+      split
+      · split <;> simp [encLen]
+      · have := encLen_length_le 128 b.length (by omega)
+        simp; omega
+    | .list xs, h => by
+      rw [weight] at h ⊢
+      rw [encode]
+      have ih := encodeList_length_le_weight xs (by omega)
+      have := encLen_length_le 192 (encodeList xs).length (by omega)
+      simp; omega
+  theorem encodeList_length_le_weight : ∀ xs : List Item, weightList xs < 2 ^ 64 → (encodeList xs).length ≤ weightList xs
+    | [], _ => by simp [encodeList, weightList]
+    | x :: xs, h => by
+      rw [weightList] at h ⊢
+      rw [encodeList]
+      have h1 := encode_length_le_weight x (by omega)
+      have h2 := encodeList_length_le_weight xs (by omega)
+      simp; omega
+end
+
+theorem encode_small (x : Item) (h : weight x < 2 ^ 64) : (encode x).length < 2 ^ 64 :=
+  Nat.lt_of_le_of_lt (encode_length_le_weight x h) h
+
 /-! ### non-vacuity -/
+
+/-- `root_reencode_refuted_short` with `E` instantiated by the real `merkle.EmptyTrieHash` -/
+theorem root_reencode_refuted_short_emptyTrieHash :
+    encRoot LemoModel.RlpCustom.emptyTrieHash (decRoot LemoModel.RlpCustom.emptyTrieHash [1]) ≠ [1] :=
+  root_reencode_refuted_short _ (by decide)
+
+-- the hypotheses of the typed `_reencode` instances are satisfiable (values built by the encoder)
+example : ∃ b v, decodeTyped deputyNodeSchema b = some v := by
+  refine ⟨_, .list [.bytes (List.replicate 20 1), .bytes [1, 2], .nat 0, .nat 0],
+    schema_roundtrip (s := deputyNodeSchema) rfl ?_⟩
+  exact encode_small _ (by simp only [toBE_zero]; decide)
+example : ∃ b v, decodeTyped blockConfirmSchema b = some v := by
+  refine ⟨_, .list [.bytes (List.replicate 32 1), .nat 0, .bytes (List.replicate 65 2)],
+    schema_roundtrip (s := blockConfirmSchema) rfl ?_⟩
+  exact encode_small _ (by simp only [toBE_zero]; decide)
+example : ∃ b v, decodeTyped blockConfirmsSchema b = some v := by
+  refine ⟨_, .list [.nat 0, .bytes (List.replicate 32 1), .list [.bytes (List.replicate 65 2)]],
+    schema_roundtrip (s := blockConfirmsSchema) rfl ?_⟩
+  exact encode_small _ (by simp only [toBE_zero]; decide)
+example : ∃ b v, decodeTyped handshakeSchema b = some v := by
+  refine ⟨_, .list [.nat 0, .bytes (List.replicate 32 1), .nat 0,
+      .list [.nat 0, .bytes (List.replicate 32 1), .nat 0, .bytes (List.replicate 32 3)]],
+    schema_roundtrip (s := handshakeSchema) rfl ?_⟩
+  exact encode_small _ (by simp only [toBE_zero]; decide)
+example : ∃ b v, decodeTyped headerSchema b = some v := by
+  refine ⟨_, .list [.bytes (List.replicate 32 1), .bytes (List.replicate 20 1), .bytes (List.replicate 32 1), .bytes [], .bytes [],
+      .nat 0, .nat 0, .nat 0, .nat 0, .bytes [], .bytes [], .bytes []],
+    schema_roundtrip (s := headerSchema) rfl ?_⟩
+  exact encode_small _ (by simp only [toBE_zero]; decide)
+-- the guards of the custom-layer theorems are satisfiable
+example : LemoProofs.RlpCustomLemmas.Sorted [([0x61], [1]), ([0x62], [2])] := by
+  unfold LemoProofs.RlpCustomLemmas.Sorted; simp [LemoModel.RlpCustom.ltBytes]
+example : ∃ it l, LemoModel.RlpCustom.decodeChangeLog it = some l ∧ StrictLog it := by
+  refine ⟨logItem 3 (.bytes (List.replicate 32 1)) (.list []), _, rfl, ?_⟩
+  intro a b c d e lt p q hit ha hpq
+  simp only [logItem] at hit
+  injection hit with hit
+  injection hit with h1 hit; injection hit with h2 hit; injection hit with h3 hit
+  injection hit with h4 hit; injection hit with h5 _
+  subst h1 h4 h5
+  have : lt = 3 := by
+    have : LemoModel.RlpCustom.decU32 (.bytes [3]) = some 3 := rfl
+    rw [this] at ha; cases ha; rfl
+  subst this
+  cases hpq
+  exact ⟨⟨_, rfl, by simp⟩, rfl⟩
 
 example : ∃ b x, decode b = .ok x :=
   ⟨_, .list [.bytes [1], .list [], .bytes [0x80, 0x81]], decode_encode _ (by decide)⟩
